@@ -261,6 +261,7 @@ void h_run(void) {
   for (int t = 0; t < nth; t++) hazard_pointer_scan(rec[t]);
   if (reclaimed_total != retired_total)
     sim_violation("C14-not-reclaimed-at-rest", "%d nodes retired, %d reclaimed after a final scan of every record with no hazard pointer set", retired_total, reclaimed_total);
+  hazard_pointer_thread_record_destroy_all(atomic_load(&hp_head)); /* teardown: every record and its scratch list freed once */
   sim_probe("retired", retired_total);
   sim_probe("protected_retires", protected_retire_seen);
   sim_finish_ok();
